@@ -337,7 +337,7 @@ class STRUCT( dfa, state ):
         if isinstance( structure_tag, bool ) and structure_tag:
             structure_tag	= value.structure_tag	# True: Use the known structure_tag
         result			= b''
-        if structure_tag:
+        if structure_tag is not False: # any structure_tag (handle) value, including 0
             result	       += UINT.produce( structure_tag )
         # A single UDT record's worth of raw payload is assumed to be available in .data.input;
         # derived classes should pre-encode their value.
